@@ -142,6 +142,45 @@ pub mod uri {
 	pub fn tokens(s: &Str) -> impl Iterator<Item = u8> + '_ {
 		s.iter().copied()
 	}
+	/// Borrow views that only exist in the URI family: a URI seen as an IRI / IRI reference.
+	pub fn extra_views(t: &[u8], probs: &mut Vec<(String, String)>) {
+		use std::borrow::Borrow;
+		use std::collections::{BTreeSet, HashSet};
+		use std::hash::{Hash, Hasher};
+		fn h<T: ?Sized + Hash>(t: &T) -> u64 {
+			let mut s = Fnv(0xcbf29ce484222325);
+			t.hash(&mut s);
+			s.finish()
+		}
+		let owned = RiBuf::new(t.to_vec()).ok().unwrap();
+		let uri: &Ri = &owned;
+		let as_iri: &iref::Iri = uri.borrow();
+		let as_iri_ref: &iref::IriRef = uri.borrow();
+		let owned_as_iri: &iref::Iri = owned.borrow();
+		let owned_as_iri_ref: &iref::IriRef = owned.borrow();
+		let hv = h(&owned);
+		for (name, x) in [("Uri->Iri", h(as_iri)), ("Uri->IriRef", h(as_iri_ref)), ("UriBuf->Iri", h(owned_as_iri)), ("UriBuf->IriRef", h(owned_as_iri_ref))] {
+			if x != hv {
+				probs.push((format!("hash:{name}"), format!("hash(UriBuf) {hv:x} != hash({name}) {x:x}")));
+			}
+		}
+		let mut hs: HashSet<RiBuf> = HashSet::new();
+		hs.insert(owned.clone());
+		if !hs.contains(as_iri) {
+			probs.push(("HashSet<UriBuf>.contains(&Iri)".into(), "not found".into()));
+		}
+		if !hs.contains(as_iri_ref) {
+			probs.push(("HashSet<UriBuf>.contains(&IriRef)".into(), "not found".into()));
+		}
+		let mut bs: BTreeSet<RiBuf> = BTreeSet::new();
+		bs.insert(owned.clone());
+		if !bs.contains(as_iri) {
+			probs.push(("BTreeSet<UriBuf>.contains(&Iri)".into(), "not found".into()));
+		}
+		if !bs.contains(as_iri_ref) {
+			probs.push(("BTreeSet<UriBuf>.contains(&IriRef)".into(), "not found".into()));
+		}
+	}
 	/// Routes that only exist for ASCII byte-string types: `str` / `String` inputs.
 	pub fn extra_routes(kind: super::Kind, b: &[u8], expect: bool, probs: &mut Vec<(String, String)>, n: &mut u64) {
 		let s = match std::str::from_utf8(b) {
@@ -212,6 +251,7 @@ pub mod iri {
 	pub fn tokens(s: &Str) -> impl Iterator<Item = char> + '_ {
 		s.chars()
 	}
+	pub fn extra_views(_t: &[u8], _probs: &mut Vec<(String, String)>) {}
 	/// Routes that only exist in the IRI family: the from-bytes constructors.
 	pub fn extra_routes(kind: super::Kind, b: &[u8], expect: bool, probs: &mut Vec<(String, String)>, n: &mut u64) {
 		let mut k = 0u64;
